@@ -819,8 +819,13 @@ impl ProgGen {
             }
             12 | 13 => self.prefix(d, vararg, 0),
             14 => {
-                if self.markers {
-                    return self.prefix(d, vararg, 1);
+                if self.markers && self.rng.chance(1, 3) {
+                    // interpolated string whose only content are marker expressions (one token)
+                    let saved = std::mem::take(&mut self.toks);
+                    self.prefix(d.min(1), vararg, 1);
+                    let inner = std::mem::replace(&mut self.toks, saved).join(" ");
+                    self.t(&format!("`{{{}}}`", inner));
+                    return;
                 }
                 self.t("if");
                 self.expr(d, vararg);
@@ -1673,7 +1678,8 @@ pub fn run(report: &mut Report, replay: Option<&str>) {
         return;
     }
 
-    let mut rng = Rng::new(report.seed);
+    // `fork` mixes the state: consecutive seeds must not share thread streams
+    let mut rng = Rng::new(report.seed).fork();
     let thorough = report.is_thorough();
 
     // corpus + known findings first
